@@ -41,7 +41,8 @@ MESH = {"want": ("converge",), "claim": ("mesh:offerer-does-not-converge", "mesh
         "quick": (2, 60), "thorough": (16, 1500)}
 
 FOREVER = 0xFFFFFF
-SUBS = {"A": ("10.0.6.1", 30490), "B": ("10.0.6.1", 30491)}  # same host, other port
+# same host, other port; one link-local IPv6 address behind two interfaces (socket addresses differ in the scope id only)
+SUBS = {"A": ("10.0.6.1", 30490), "B": ("10.0.6.1", 30491), "C": ("fe80::6", 30490, 0, 2), "D": ("fe80::6", 30490, 0, 3)}
 SUB_NAME = {v: k for k, v in SUBS.items()}
 # instances: name -> (service id, instance, major, eventgroups)
 INSTANCES = {"X": (0x3001, 1, 1, (1, 2, 3)), "Y": (0x3002, 7, 2, (1,))}
@@ -50,9 +51,10 @@ REJECTED = {("X", 3, 0, "v4"), ("X", 1, 15, "v4"), ("Y", 1, 1, "v6")}
 
 
 def endpoint(sub, kind):
+    n = "ABCD".index(sub) + 1
     if kind == "v4":
-        return refwire.ep4(SUBS[sub][0], 4000)
-    return refwire.ep6("2001:db8::" + ("1" if sub == "A" else "2"), 4000)
+        return refwire.ep4(SUBS[sub][0] if ":" not in SUBS[sub][0] else f"10.0.6.{10 + n}", 4000)
+    return refwire.ep6(f"2001:db8::{n}", 4000)
 
 
 class Model:
@@ -342,7 +344,8 @@ class Builder:
                     prng.shuffle(eps)
                     cut = prng.randrange(len(eps) + 1)
                     o1, o2 = eps[:cut], eps[cut:]
-                    extra = prng.choice((None, None, refwire.opt_loadbal(1, 2), refwire.opt_config([b"a=1"])))
+                    extra = prng.choice((None, None, refwire.opt_loadbal(1, 2), refwire.opt_config([b"a=1"]),
+                                         refwire.ep4("10.0.0.99", 30490, typ=0x24), refwire.ep4("239.1.1.9", 30490, typ=0x14)))
                     if extra is not None:
                         run = prng.choice((o1, o2))
                         run.insert(prng.randrange(len(run) + 1), extra)
@@ -468,7 +471,7 @@ def random_history(rng):
     for _ in range(n):
         r = rng.random()
         if r < 0.62:
-            sub = rng.choice("AAB")
+            sub = rng.choice("AABCD")
             ents = []
             for _ in range(rng.choice((1, 1, 1, 2, 3))):
                 tag = rng.choice(hot) if rng.random() < 0.75 else rng.choice(TAGS)
@@ -476,7 +479,7 @@ def random_history(rng):
             a = dict(kind="msg", sub=sub, mc=rng.random() < 0.08, entries=ents, reboot=rng.random() < 0.12,
                      pres=[rng.randrange(1, 1 << 30) if rng.random() < 0.6 else 0 for _ in ents])
         elif r < 0.7:
-            a = dict(kind="msg", sub=rng.choice("AB"), mc=rng.random() < 0.4, entries=[], reboot=True, offer_entry=rng.random() < 0.5)
+            a = dict(kind="msg", sub=rng.choice("ABCD"), mc=rng.random() < 0.4, entries=[], reboot=True, offer_entry=rng.random() < 0.5)
         elif r < 0.82:
             inst = rng.choice("XXY")
             a = dict(kind="svc_start" if not b.running[inst] else "svc_stop", inst=inst)
@@ -486,7 +489,7 @@ def random_history(rng):
             tg = rng.choice(hot)
             a = dict(kind="policy", tag=tg, reject=tg not in b.policy)
         else:
-            a = dict(kind="msg", sub=rng.choice("AB"), mc=False, entries=[(rng.choice(hot), rng.choice((1, 2)))])
+            a = dict(kind="msg", sub=rng.choice("ABCD"), mc=False, entries=[(rng.choice(hot), rng.choice((1, 2)))])
         pl = rng.choice(("new", "new", "same", "same", "same+1", "same+2", "d-eps", "d:before", "d:after", "d:after+1", "d+eps", "d-res"))
         if b.add(a, pl):
             seq.append((a["kind"], pl))
